@@ -33,6 +33,7 @@ DECIDED = [
     "DUP-1 object_unique_names reports an object iff its key was met earlier in the same scan (the key set starts empty and every scanned object is recorded)",
     "IDENT-2 Validation.__getitem__ selects the issues of an object by identity (an equal looking object elsewhere has its own issues)",
     "RESET-1 (shared with C19) a Validation object that is run again starts from an empty issue list: the warnings reported are those of the current state",
+    "ID-3 (C04 PROV-2 / SIB-1) ids are stored in canonical text form: the duplicate id rule compares ids as strings",
     "WALK-2 run_validation validates the object, every Section below it and every Property of those Sections",
     "ORD-2 cardinality reports are exact over all order types (shared with C09)",
 ]
@@ -257,6 +258,9 @@ def run(prog, rep):
 
     acc1_rule(prog, rep, S)
     dup1_rule(prog, rep)
+    from ..report import import_verdicts
+    import_verdicts(prog, rep, "C04", ("PROV-2", "SIB-1"), "ID-3",
+                    "section_unique_ids / property_unique_ids compare the stored id strings: two spellings of one UUID must not both be storable")
     # --------------------------------------------------------------- IDENT-2
     rep.rule("IDENT-2", "Validation.__getitem__: every comparison of <issue>.obj with the key is `is` (odML == is a deep content comparison "
                         "that ignores ids: two Properties with equal content in different Sections would share their issues)")
